@@ -30,4 +30,4 @@ COMMON_TRUSTED = [
     "rustc front end (the harness crate compiles /repo's current source)",
 ]
 
-from . import c01, c02, c06, c07, c08, c09, c11, c12, c17  # noqa: E402,F401
+from . import c01, c02, c04, c05, c06, c07, c08, c09, c10, c11, c12, c14, c15, c17  # noqa: E402,F401
